@@ -11,7 +11,29 @@ for p in props:
     if not e.get('claimed'):
         na.append({'property_id': pid, 'reason': e.get('unclaimed_reason', 'check not built yet (work in progress); the technique applies, see DESIGN.md §7')})
         continue
-    m = e.get('manifest', {})
+    m = dict(e.get('manifest', {}))
+    # theorems registered from the Lemmas/AlgoEq* files are about B.Gen.Algo/Algo2/Algo3 definitions, i.e. about Lean text
+    # that tools/rust2lean.py regenerates from /repo's Rust source on every run
+    tr = [t for t in e.get('theorems', []) if not t.startswith('B.Props.')]
+    if tr:
+        m['level_text'] = m.get('level_text', '') + (
+            ' Tie to the source text, second route: %d of the %d registered theorems are about the Lean translation of the Rust '
+            'functions themselves (lean/BddVerif/Gen/Algo*.lean, regenerated statement by statement from /repo by tools/rust2lean.py on '
+            'every run: explicit stacks, caches and loops kept as they are, loops with fuel) and prove it equal to the hand-written '
+            'model or directly to the specification, with explicit fuel bounds and the panic cases: %s.'
+            % (len(tr), len(e['theorems']), ', '.join(t[2:] for t in tr)))
+        note = m.get('level_note', '')
+        for old in ('is tied to the code only by the differential correspondence on the generated inputs',
+                    'are tied to the code only by the differential correspondence on the generated inputs',
+                    'are tied to the code only by the differential correspondence',
+                    'is tied to the code only by the differential correspondence',
+                    'tied to the code only by differential correspondence',
+                    'tied to /repo only by the differential correspondence',
+                    'is tied to the code only by differential correspondence on the enumerated inputs',
+                    'are tied to the code by the differential correspondence on the generated inputs, not by proof about the Rust text'):
+            note = note.replace(old, old.replace(' only', '').replace(', not by proof about the Rust text', '') +
+                                ' and by the equivalence theorems about the regenerated translation (for the functions named in the level text; translator tools/rust2lean.py and its shims Gen/RustShim*.lean trusted)')
+        m['level_note'] = note
     checks.append({
         'property_id': pid,
         'quick_cmd': './check %s quick' % pid,
